@@ -4541,3 +4541,131 @@ func ruleCompoundAdvanceCoversAllChildren(r *Report, rule string, typeNames ...s
 		undecidedf("compound-advance rule matched %d child fields", n)
 	}
 }
+
+// ruleMergeAccumulates (K9b): a Merge/MergeWith method folds another partial
+// result into the receiver.  For receiver maps whose values are collections
+// (slices, maps, counters), an entry that already exists must be COMBINED with
+// the incoming one - the stored value depends on the receiver's current entry
+// (`dst[k] = append(dst[k], ...)`, `dst[k] += ...`), or the store is guarded by
+// the entry's absence.  A plain overwrite (`dst[k] = v`, maps.Copy(dst, src))
+// makes the result depend on which member answered last and loses the others'
+// contribution.
+func ruleMergeAccumulates(r *Report, rule string, fns ...string) {
+	p := r.P
+	n := 0
+	for _, fn := range fns {
+		fi := p.MustFunc(fn)
+		r.Fn(fi)
+		info := fi.Pkg.TypesInfo
+		recv := recvObj(fi)
+		g := buildCFG(info, fi.Decl.Body)
+		rootIs := func(e ast.Expr) bool {
+			for {
+				e = ast.Unparen(e)
+				switch x := e.(type) {
+				case *ast.IndexExpr:
+					e = x.X
+				case *ast.SelectorExpr:
+					e = x.X
+				case *ast.Ident:
+					return info.ObjectOf(x) == recv
+				default:
+					return false
+				}
+			}
+		}
+		// overwriting bulk copies
+		for _, c := range callsDeep(fi.Decl.Body) {
+			if f := callee(info, c); f != nil && f.Pkg() != nil && f.Pkg().Path() == "maps" && f.Name() == "Copy" && len(c.Args) == 2 && rootIs(c.Args[0]) {
+				n++
+				r.Ob(rule, fi.Name+"/no-overwriting-bulk-copy", c.Pos(), false, exprStr(c)+" overwrites entries the receiver already has instead of combining them with the incoming ones")
+			}
+		}
+		ast.Inspect(fi.Decl.Body, func(x ast.Node) bool {
+			as, ok := x.(*ast.AssignStmt)
+			if !ok || len(as.Lhs) != 1 || len(as.Rhs) != 1 {
+				return true
+			}
+			ix, ok := ast.Unparen(as.Lhs[0]).(*ast.IndexExpr)
+			if !ok || !rootIs(ix) {
+				return true
+			}
+			// only collection-valued entries
+			switch info.TypeOf(ix).Underlying().(type) {
+			case *types.Slice, *types.Map:
+			default:
+				if b, isB := info.TypeOf(ix).Underlying().(*types.Basic); !isB || b.Info()&types.IsNumeric == 0 {
+					return true
+				}
+			}
+			n++
+			combined := as.Tok != token.ASSIGN // += etc.
+			lhsText := exprStr(ix)
+			ast.Inspect(as.Rhs[0], func(y ast.Node) bool {
+				if e, isE := y.(ast.Expr); isE && exprStr(e) == lhsText {
+					combined = true
+				}
+				return true
+			})
+			// or: guarded by the entry's absence (comma-ok miss / nil test of the entry)
+			if !combined {
+				for _, fct := range g.GuardsOf(as) {
+					if id, isID := ast.Unparen(fct.Expr).(*ast.Ident); isID && !fct.Truth && commaOkKind[info.ObjectOf(id)] == "lookup" {
+						combined = true
+					}
+					if e, isEq, isNil := nilTest(info, fct.Expr); isNil && isEq == fct.Truth && exprStr(e) == lhsText {
+						combined = true
+					}
+				}
+				if allocates(info, as.Rhs[0], nil, "", "") {
+					combined = true // creating the (empty) entry
+				}
+			}
+			r.Ob(rule, fi.Name+"/"+lhsText+"-combined-not-overwritten", as.Pos(), combined, "`"+exprStr(as.Lhs[0])+" = "+exprShort(as.Rhs[0])+"` replaces what the receiver already holds under that key; a merge has to combine both sides (append / add / only-if-absent)")
+			return true
+		})
+	}
+	if n < 2 {
+		undecidedf("merge rule matched %d stores", n)
+	}
+}
+
+// rulePageTrimCoversSizeZero (K5): hitsInCurrentPage cuts the merged hit list of
+// an alias to the requested page.  The cut to Size must also apply for Size 0
+// ("no hits, only totals/facets"): members are asked for Size+From hits, so with
+// From > 0 there are hits to drop.  A guard `Size > 0` on the trim lets them
+// through (a single index returns none).
+func rulePageTrimCoversSizeZero(r *Report, rule string) {
+	p := r.P
+	fi := p.MustFunc("bleve.hitsInCurrentPage")
+	r.Fn(fi)
+	info := fi.Pkg.TypesInfo
+	g := buildCFG(info, fi.Decl.Body)
+	n := 0
+	ast.Inspect(fi.Decl.Body, func(x ast.Node) bool {
+		as, ok := x.(*ast.AssignStmt)
+		if !ok || len(as.Rhs) != 1 {
+			return true
+		}
+		se, ok := ast.Unparen(as.Rhs[0]).(*ast.SliceExpr)
+		if !ok || se.High == nil || !isField(info, se.High, "SearchRequest", "Size") {
+			return true
+		}
+		n++
+		bad := ""
+		for _, fct := range g.GuardsOf(as) {
+			be, isB := ast.Unparen(fct.Expr).(*ast.BinaryExpr)
+			if !isB || !isField(info, be.X, "SearchRequest", "Size") {
+				continue
+			}
+			if k, isC := intConst(info, be.Y); isC && k == 0 && ((be.Op == token.GTR && fct.Truth) || (be.Op == token.LEQ && !fct.Truth) || (be.Op == token.NEQ && fct.Truth)) {
+				bad = fct.String()
+			}
+		}
+		r.Ob(rule, fi.Name+"/trim-to-Size-also-for-Size-0", as.Pos(), bad == "", "the cut to req.Size is skipped when "+bad+" fails, i.e. for Size == 0: with From > 0 an alias then returns hits for a request that asks for none")
+		return true
+	})
+	if n < 1 {
+		undecidedf("%s: trim to req.Size not found", fi.Name)
+	}
+}
